@@ -120,8 +120,23 @@ class Multiline:
     -------
     self
     """
-    for of in gfa_line.tagnames:
-      self.add(of, gfa_line.get(of), gfa_line.get_datatype(of))
+    # all or nothing: if a tag of gfa_line cannot be merged, the tags merged
+    # before it are taken back
+    data = dict(self._data)
+    datatype = dict(self._datatype)
+    sizes = [(v, len(v._data)) for v in data.values() \
+               if isinstance(v, gfapy.FieldArray)]
+    try:
+      for of in gfa_line.tagnames:
+        self.add(of, gfa_line.get(of), gfa_line.get_datatype(of))
+    except:
+      for field_array, size in sizes:
+        del field_array._data[size:]
+      self._data.clear()
+      self._data.update(data)
+      self._datatype.clear()
+      self._datatype.update(datatype)
+      raise
     return self
 
   def _tags(self):
